@@ -3,6 +3,7 @@ import json
 import re
 
 import common
+import whitebox
 import gen_insp
 import insp_gen as G
 import insp_impl
@@ -257,7 +258,7 @@ def peak_of(fmt, data, sizes):
 
     def every(i, pos):
         best[0] = max(best[0], sum(i.context_info.values()))
-        for r in i._capture_regions.values():
+        for r in whitebox.regions(i).values():
             if r.length < 0 or r.length > G.bound(fmt):
                 odd[0] = True
     insp = G.impl_run(fmt, data, sizes, every_chunk=every)[2]
